@@ -2,63 +2,81 @@
 # The RPC request path as a pipeline of FIFO stages — property C03
 
 Anchors: `qmi/core/rpc.py` (`blocking_rpc_method_call`, `non_blocking_rpc_method_call`,
-`QMI_RpcFuture.send_method_rpc_request_message`, `RpcObjectManager.start/handle_message`,
-`_RpcThread.push_rpc_request/run`) and `qmi/core/messaging.py` (`MessageRouter.send_message`,
+`QMI_RpcFuture.send_method_rpc_request_message / send_lock_rpc_request_message`,
+`RpcObjectManager.start/stop/handle_message`, `_RpcThread.push_rpc_request/run/_reject_remaining_requests`),
+`qmi/core/messaging.py` (`MessageRouter.send_message/deliver_message/unregister_message_handler`,
 `_EventDrivenThread.run_in_thread_arg`, `_SocketManager.send_message`,
-`_PeerTcpConnection.send_message/_receive_data/_process_message`, `MessageRouter.deliver_message`).
+`_PeerTcpConnection.send_message/_receive_data/_process_message`) and `qmi/core/context.py`
+(`remove_rpc_object`, `_stop_rpc_objects`).
 
 An interleaving transition system over an unbounded number of caller threads, contexts, objects and
 requests.  One action = one critical section of the code (DESIGN §3, *Atomicity*):
 
 | action               | code                                                                                   |
 |----------------------|----------------------------------------------------------------------------------------|
-| `start o w`          | `RpcObjectManager.start`: `assert self._rpc_thread is None`; create + start ONE `_RpcThread` |
-| `issue c o r`        | caller thread `c` enters `(non_)blocking_rpc_method_call` for object `o` (program order: a thread has at most one call "in hand": it leaves the call path only after the request is enqueued) |
-| `enqLocal c`         | `MessageRouter.send_message`, destination context = own context: `deliver_message` → `RpcObjectManager.handle_message` → `_RpcThread.push_rpc_request`: `_fifo.append` under `_cv`, **in the caller's thread** |
-| `enqRemote c`        | destination is a peer context: `socket_thread.run_in_thread_arg(socket_manager.send_message, message)` = `event_loop.call_soon_threadsafe` under the thread's `_cv`: append to the ready queue of the caller's context |
-| `loopRun k`          | the event loop of context `k` runs the oldest ready callback: `_SocketManager.send_message` → `_PeerTcpConnection.send_message` → `sock.sendall`: bytes appended to the TCP stream `k → home o` |
-| `wireDeliver k d`    | the event loop of context `d` reads the stream from `k` (`_receive_data`), cuts the oldest complete message, `_process_message` → `deliver_message` → `handle_message` → `push_rpc_request`: `_fifo.append` under `_cv` |
-| `workerPop w o`      | `_RpcThread.run`: `request = self._fifo.popleft()` under `_cv` — the loop body is sequential, so the worker pops only when it holds no request |
-| `workerFinish w o`   | `_handle_method_rpc_request` returned (the method of the object has run), the reply is sent, `del request` |
+| `start o w`          | `RpcObjectManager.start`: `assert self._rpc_thread is None`; create + start ONE `_RpcThread` (shape checked on the source: `Gen/RpcShape.lean`) |
+| `issue c k o r`      | caller thread `c` enters a proxy call for object `o` **through a proxy of context `k`** (method call or lock-protocol request; program order: a thread has at most one call "in hand") |
+| `lookupLocal c`      | `MessageRouter.send_message`, destination context = `k`: `deliver_message` looks the handler up under `_address_to_messagehandler_map_lock`, in the caller's thread; not registered (any more) ⇒ `QMI_MessageDeliveryException`: the request is *refused* |
+| `pushLocal c`        | `RpcObjectManager.handle_message` under `_stop_lock`: `_running` ⇒ `push_rpc_request` (`_fifo.append` under `_cv`), else refused ("already stopped") |
+| `enqRemote c`        | destination is a peer context: `socket_thread.run_in_thread_arg(socket_manager.send_message, message)` = `call_soon_threadsafe` under the thread's `_cv`: append to the ready queue of context `k` |
+| `loopRun k`          | the event loop of `k` runs the oldest ready callback: `_SocketManager.send_message` → `_PeerTcpConnection.send_message` → `sock.sendall`: bytes appended to the TCP stream `k → home o` |
+| `lookupWire k d`     | the event loop of `d` reads the stream from `k`, cuts the oldest complete message, `_process_message` → `deliver_message`: handler lookup (the loop thread handles one message at a time); unknown ⇒ refused (error reply) |
+| `pushWire d`         | as `pushLocal`, in the loop thread of `d` |
+| `workerPop w o`      | `_RpcThread.run`: under `_cv`, shutdown not requested, `request = self._fifo.popleft()` — the loop body is sequential, so the worker pops only when it holds no request |
+| `workerFinish w o`   | `_handle_method_rpc_request` / `_handle_lock_rpc_request` returned, the reply is sent, `del request` |
+| `unregister o`       | `remove_rpc_object` / `_stop_rpc_objects`: `unregister_message_handler(manager)` |
+| `stopMark o`         | `RpcObjectManager.stop`: `_running = False` under `_stop_lock` |
+| `shutdownReq o`      | `self._rpc_thread.shutdown()`: `_shutdown_requested = True`, notify |
+| `workerLeave w o`    | the worker sees the shutdown flag at the top of its loop and `break`s |
+| `rejectOne w o`      | `_reject_remaining_requests`: `popleft` + error reply, in the worker thread after the loop |
 
-Ghost state: `issued` (global issue log), `executed o` (requests whose method has run on `o`, in order)
-and `execBy o` (which thread ran each of them).
+Ghost state: `issued` (global issue log), `executed o` / `execBy o`, `rejected o`, `refused o`.
 
-Not modelled here (C01's model covers them): replies, object removal/`_running = False`, connection loss,
-lock requests.  The ready queue of a context also holds callbacks other than method requests (replies,
-socket bookkeeping); they are abstracted away — only the relative order of the requests matters.
+What is *not* here: the content of replies (C01/C02: a future receives the reply of its own request id; the model
+has no action for waiting at all, so the order of executions cannot depend on whether or in which order futures are
+waited for), connection loss (C01/C06), the lock state machine (C04: a lock request is just one more request here).
+The ready queue of a context also holds callbacks other than requests; they are abstracted away.
 
 Core Lean only (the driver exe links this file).
 -/
 namespace QmiModel.Pipeline
 
-/-- a method request: the calling thread, the target object, and an id chosen by the caller -/
+/-- a request: the calling thread, the context whose proxy it used, the target object, an id chosen by the caller -/
 structure Req where
   caller : Nat
+  via    : Nat
   obj    : Nat
   id     : Nat
   deriving DecidableEq, Repr
 
-/-- the (fixed) placement: context of each caller thread, home context of each object -/
+/-- the (fixed) placement: home context of each object -/
 structure Topo where
-  ctxOf : Nat → Nat
-  home  : Nat → Nat
+  home : Nat → Nat
 
 structure State where
   issued   : List Req               -- ghost: all calls in the order they were issued
   hand     : Nat → Option Req       -- per caller thread: the call it is currently issuing
+  heldC    : Nat → Option Req       -- per caller thread: local call whose handler was found, not yet pushed
   ready    : Nat → List Req         -- per context: event-loop ready queue, oldest first
   wire     : Nat → Nat → List Req   -- per (source context, destination context): TCP stream, oldest first
+  heldL    : Nat → Option Req       -- per context: message its loop thread is delivering (handler found, not yet pushed)
   fifo     : Nat → List Req         -- per object: `_RpcThread._fifo`, oldest first
   worker   : Nat → Option Nat       -- per object: the thread created by `RpcObjectManager.start`
   cur      : Nat → Option Req       -- per object: the request its worker is executing
   executed : Nat → List Req         -- ghost: per object, executed requests, oldest first
   execBy   : Nat → List Nat         -- ghost: per object, the executing thread of each entry of `executed`
+  unreg    : Nat → Bool             -- per object: manager no longer registered as message handler
+  stopped  : Nat → Bool             -- per object: `_running = False`
+  shutdown : Nat → Bool             -- per object: worker's `_shutdown_requested`
+  left     : Nat → Bool             -- per object: the worker has left its request loop
+  rejected : Nat → List Req         -- ghost: per object, requests answered by `_reject_remaining_requests`
+  refused  : Nat → List Req         -- ghost: per object, requests refused at delivery (unknown destination / stopped)
 
 def init : State :=
-  { issued := [], hand := fun _ => none, ready := fun _ => [], wire := fun _ _ => [],
-    fifo := fun _ => [], worker := fun _ => none, cur := fun _ => none,
-    executed := fun _ => [], execBy := fun _ => [] }
+  { issued := [], hand := fun _ => none, heldC := fun _ => none, ready := fun _ => [], wire := fun _ _ => [],
+    heldL := fun _ => none, fifo := fun _ => [], worker := fun _ => none, cur := fun _ => none,
+    executed := fun _ => [], execBy := fun _ => [], unreg := fun _ => false, stopped := fun _ => false,
+    shutdown := fun _ => false, left := fun _ => false, rejected := fun _ => [], refused := fun _ => [] }
 
 def upd {α : Type} (f : Nat → α) (k : Nat) (v : α) : Nat → α := fun j => if j = k then v else f j
 
@@ -67,36 +85,53 @@ def upd2 {α : Type} (f : Nat → Nat → α) (k d : Nat) (v : α) : Nat → Nat
 
 inductive Act
   | start (o w : Nat)
-  | issue (c o r : Nat)
-  | enqLocal (c : Nat)
+  | issue (c k o r : Nat)
+  | lookupLocal (c : Nat)
+  | pushLocal (c : Nat)
   | enqRemote (c : Nat)
   | loopRun (k : Nat)
-  | wireDeliver (k d : Nat)
+  | lookupWire (k d : Nat)
+  | pushWire (d : Nat)
   | workerPop (w o : Nat)
   | workerFinish (w o : Nat)
+  | unregister (o : Nat)
+  | stopMark (o : Nat)
+  | shutdownReq (o : Nat)
+  | workerLeave (w o : Nat)
+  | rejectOne (w o : Nat)
   deriving DecidableEq, Repr
 
 /-- `step T s a = some s'` iff action `a` is enabled in `s` and leads to `s'` -/
 def step (T : Topo) (s : State) : Act → Option State
   | .start o w =>
       if s.worker o = none then some { s with worker := upd s.worker o (some w) } else none
-  | .issue c o r =>
-      if s.hand c = none ∧ (⟨c, o, r⟩ : Req) ∉ s.issued then
-        some { s with issued := s.issued ++ [⟨c, o, r⟩], hand := upd s.hand c (some ⟨c, o, r⟩) }
+  | .issue c k o r =>
+      if s.hand c = none ∧ s.heldC c = none ∧ (⟨c, k, o, r⟩ : Req) ∉ s.issued then
+        some { s with issued := s.issued ++ [⟨c, k, o, r⟩], hand := upd s.hand c (some ⟨c, k, o, r⟩) }
       else none
-  | .enqLocal c =>
+  | .lookupLocal c =>
       match s.hand c with
       | some x =>
-          if T.home x.obj = T.ctxOf c then
-            some { s with hand := upd s.hand c none, fifo := upd s.fifo x.obj (s.fifo x.obj ++ [x]) }
+          if T.home x.obj = x.via ∧ s.heldC c = none then
+            if s.unreg x.obj then
+              some { s with hand := upd s.hand c none, refused := upd s.refused x.obj (s.refused x.obj ++ [x]) }
+            else
+              some { s with hand := upd s.hand c none, heldC := upd s.heldC c (some x) }
           else none
+      | none => none
+  | .pushLocal c =>
+      match s.heldC c with
+      | some x =>
+          if s.stopped x.obj then
+            some { s with heldC := upd s.heldC c none, refused := upd s.refused x.obj (s.refused x.obj ++ [x]) }
+          else
+            some { s with heldC := upd s.heldC c none, fifo := upd s.fifo x.obj (s.fifo x.obj ++ [x]) }
       | none => none
   | .enqRemote c =>
       match s.hand c with
       | some x =>
-          if T.home x.obj = T.ctxOf c then none
-          else some { s with hand := upd s.hand c none,
-                             ready := upd s.ready (T.ctxOf c) (s.ready (T.ctxOf c) ++ [x]) }
+          if T.home x.obj = x.via ∨ s.heldC c ≠ none then none
+          else some { s with hand := upd s.hand c none, ready := upd s.ready x.via (s.ready x.via ++ [x]) }
       | none => none
   | .loopRun k =>
       match s.ready k with
@@ -104,13 +139,26 @@ def step (T : Topo) (s : State) : Act → Option State
           some { s with ready := upd s.ready k rest,
                         wire := upd2 s.wire k (T.home x.obj) (s.wire k (T.home x.obj) ++ [x]) }
       | [] => none
-  | .wireDeliver k d =>
+  | .lookupWire k d =>
       match s.wire k d with
       | x :: rest =>
-          some { s with wire := upd2 s.wire k d rest, fifo := upd s.fifo x.obj (s.fifo x.obj ++ [x]) }
+          if s.heldL d = none then
+            if s.unreg x.obj then
+              some { s with wire := upd2 s.wire k d rest, refused := upd s.refused x.obj (s.refused x.obj ++ [x]) }
+            else
+              some { s with wire := upd2 s.wire k d rest, heldL := upd s.heldL d (some x) }
+          else none
       | [] => none
+  | .pushWire d =>
+      match s.heldL d with
+      | some x =>
+          if s.stopped x.obj then
+            some { s with heldL := upd s.heldL d none, refused := upd s.refused x.obj (s.refused x.obj ++ [x]) }
+          else
+            some { s with heldL := upd s.heldL d none, fifo := upd s.fifo x.obj (s.fifo x.obj ++ [x]) }
+      | none => none
   | .workerPop w o =>
-      if s.worker o = some w ∧ s.cur o = none then
+      if s.worker o = some w ∧ s.cur o = none ∧ s.shutdown o = false then
         match s.fifo o with
         | x :: rest => some { s with fifo := upd s.fifo o rest, cur := upd s.cur o (some x) }
         | [] => none
@@ -123,6 +171,20 @@ def step (T : Topo) (s : State) : Act → Option State
                           executed := upd s.executed o (s.executed o ++ [x]),
                           execBy := upd s.execBy o (s.execBy o ++ [w]) }
         | none => none
+      else none
+  | .unregister o => some { s with unreg := upd s.unreg o true }
+  | .stopMark o => some { s with stopped := upd s.stopped o true }
+  | .shutdownReq o =>
+      if s.stopped o then some { s with shutdown := upd s.shutdown o true } else none
+  | .workerLeave w o =>
+      if s.worker o = some w ∧ s.shutdown o = true ∧ s.cur o = none then
+        some { s with left := upd s.left o true }
+      else none
+  | .rejectOne w o =>
+      if s.worker o = some w ∧ s.left o = true then
+        match s.fifo o with
+        | x :: rest => some { s with fifo := upd s.fifo o rest, rejected := upd s.rejected o (s.rejected o ++ [x]) }
+        | [] => none
       else none
 
 /-- run a list of actions; `none` as soon as one is not enabled -/
@@ -137,20 +199,20 @@ inductive Reach (T : Topo) : State → Prop
   | init : Reach T init
   | step {s s' a} : Reach T s → step T s a = some s' → Reach T s'
 
-/-- the request belongs to the pair (caller thread `c`, object `o`) -/
-def sel (c o : Nat) (x : Req) : Bool := x.caller == c && x.obj == o
+/-- the request belongs to the route (caller thread `c`, proxy context `k`, object `o`) -/
+def sel (c k o : Nat) (x : Req) : Bool := x.caller == c && x.via == k && x.obj == o
 
-/-- all stages a request of caller `c` to object `o` can be in, **oldest first** -/
-def stages (T : Topo) (s : State) (c o : Nat) : List Req :=
-  s.executed o ++ (s.cur o).toList ++ s.fifo o ++ s.wire (T.ctxOf c) (T.home o)
-    ++ s.ready (T.ctxOf c) ++ (s.hand c).toList
+/-- all places a request of caller `c` to object `o` through context `k` can be in, **oldest first** -/
+def stages (T : Topo) (s : State) (c k o : Nat) : List Req :=
+  s.executed o ++ (s.cur o).toList ++ s.rejected o ++ s.fifo o ++ s.refused o ++ (s.heldL (T.home o)).toList
+    ++ s.wire k (T.home o) ++ s.ready k ++ (s.heldC c).toList ++ (s.hand c).toList
 
-/-- the calls `c` issued to `o`, in issue order -/
-def issuedBy (s : State) (c o : Nat) : List Req := s.issued.filter (sel c o)
+/-- the calls `c` issued to `o` through `k`, in issue order -/
+def issuedBy (s : State) (c k o : Nat) : List Req := s.issued.filter (sel c k o)
 
 /-- number of places (counted with multiplicity) in which request `x` currently is -/
 def occurrences (T : Topo) (s : State) (x : Req) : Nat :=
-  (stages T s x.caller x.obj).count x
+  (stages T s x.caller x.via x.obj).count x
 
 /-- 1 if the action is a pop by (any thread claiming to be) the worker of `o` -/
 def isPop (o : Nat) : Act → Nat
